@@ -23,6 +23,7 @@ func init() {
 			{Name: "%q for opts", File: "route/route.go", Old: "s += fmt.Sprintf(\" opts \\\"%s\\\"\", strings.Join(vals, \" \"))", New: "s += fmt.Sprintf(\" opts %q\", strings.Join(vals, \" \"))", Expect: "C05.Q1"},
 			{Name: "strconv.Quote in the consul generator", File: "registry/consul/routecmd.go", Old: "cfg += \" tags \\\"\" + strings.Join(svctags, \",\") + \"\\\"\"", New: "cfg += \" tags \" + strconv.Quote(strings.Join(svctags, \",\"))", Expect: "C05.Q1"},
 			{Name: "weight without a match reports success", File: "route/table.go", Old: "\tif n := t[host].find(path).setWeight(d.Service, d.Weight, d.Tags); n == 0 {\n\t\treturn errNoMatch\n\t}", New: "\tt[host].find(path).setWeight(d.Service, d.Weight, d.Tags)", Expect: "C05.W1"},
+			{Name: "targets de-duplicated by URL struct equality", File: "route/route.go", Old: "t.URL.String() == targetURL.String() && t.FixedWeight == fixedWeight", New: "*t.URL == *targetURL && t.FixedWeight == fixedWeight", Expect: "C05.I1"},
 			{Name: "benign: renderer with strings.Builder-like concatenation", File: "route/route.go", Old: "s += fmt.Sprintf(\" opts \\\"%s\\\"\", strings.Join(vals, \" \"))", New: "s += \" opts \\\"\" + strings.Join(vals, \" \") + \"\\\"\"", Expect: ""},
 		},
 	})
@@ -34,6 +35,7 @@ func runC05(c *Ctx) {
 	runC05G1(c)
 	runQuoting(c, "C05.Q1")
 	runC05W1(c)
+	runC05I1(c)
 }
 
 // ---- K1 -------------------------------------------------------------------------------------
